@@ -339,6 +339,59 @@ def r07_8(chk, P):
     return n
 
 
+def r07_13(chk, P, rule='R07.13'):
+    chk.rule(rule, 'a track-only block advances the position bookkeeping exactly as a decoded one does: vorbis_synthesis_blockin is '
+             'interpreted (K4) for an in-sequence block in two constant contexts, vb->pcm == NULL (what vorbis_synthesis_trackonly '
+             'produces; sample-accurate seeks feed such blocks for every packet they skip) and vb->pcm != NULL, with marker values '
+             'in the window history, the sequence number, the running sample count and the running granule position.  At the '
+             'success returns of both contexts: lW holds the old W, W the block\'s flag, sequence the block\'s number, and the '
+             'sample count and granule position have advanced by the same range of (last/4 + this/4)')
+    import absint
+    from absint import V, K
+    F = P.need('vorbis_synthesis_blockin')
+    chk.require(F.params and F.params[0].get('record') == 'vorbis_dsp_state', 'vorbis_synthesis_blockin: first parameter is not the dsp state')
+    root = f'v{F.params[0]["id"]}->'
+    MS, MG = 10 ** 6, 10 ** 12
+    for recf in (('vorbis_block', 'pcm'), ('vorbis_dsp_state', 'lW'), ('vorbis_dsp_state', 'W'), ('vorbis_block', 'W'),
+                 ('private_state', 'sample_count'), ('vorbis_dsp_state', 'granulepos'), ('vorbis_dsp_state', 'sequence')):
+        P.field(*recf)
+    dflt = {'W': K(0), 'lW': K(7), 'sequence': K(5), 'sample_count': K(MS), 'granulepos': K(MG)}
+    res = {}
+    for ctx, pv in (('track-only', V(0, 0, nn=False)), ('decoded', V(nn=True))):
+        finv = {('vorbis_dsp_state', 'sequence', False): K(5), ('vorbis_block', 'sequence', False): K(6),
+                ('private_state', 'sample_count', False): K(MS), ('vorbis_dsp_state', 'granulepos', False): K(MG),
+                ('vorbis_block', 'granulepos', False): K(-1), ('vorbis_block', 'eofflag', False): K(0),
+                ('vorbis_dsp_state', 'W', False): K(0), ('vorbis_dsp_state', 'lW', False): K(7), ('vorbis_block', 'W', False): K(1),
+                ('vorbis_block', 'pcm', False): pv, ('codec_setup_info', 'blocksizes', True): V(64, 8192),
+                ('codec_setup_info', 'halfrate_flag', False): V(0, 1)}
+        A = absint.Analyzer(P, F, field_inv=finv)
+        A.run()
+        rets = [(e, env, v) for (e, env, v) in A.ret_states if v is not None and v.lo <= 0 <= v.hi]
+        chk.require(rets, f'vorbis_synthesis_blockin has no success return for a {ctx} block')
+        out = {}
+        for (e, env, v) in rets:
+            for fld in dflt:
+                hit = [x for k_, x in env.items() if isinstance(k_, str) and k_.startswith(root) and k_.endswith('->' + fld) or k_ == root + fld]
+                hit = [x for x in hit if isinstance(x, V)]
+                x = dflt[fld] if not hit else hit[0]
+                for y in hit[1:]:
+                    x = absint.join(x, y)
+                out[fld] = x if fld not in out else absint.join(out[fld], x)
+        res[ctx] = (out, rets[0][0])
+    for ctx, (out, where) in res.items():
+        ok = (out['lW'].const() == 0 and out['W'].const() == 1 and out['sequence'].const() == 6 and
+              out['sample_count'].lo >= MS + 32 and out['granulepos'].lo >= MG + 32)
+        chk.ob(rule, F.name, f'{ctx}-block-advances-the-bookkeeping', ok, F.where(where),
+               f'lW {out["lW"]} (old W 0), W {out["W"]} (block 1), sequence {out["sequence"]} (block 6), sample count '
+               f'{out["sample_count"]} (was {MS}), granule position {out["granulepos"]} (was {MG})')
+    a, b = res['track-only'][0], res['decoded'][0]
+    same = all((a[f].lo, a[f].hi) == (b[f].lo, b[f].hi) for f in dflt)
+    chk.ob(rule, F.name, 'track-only-and-decoded-blocks-agree', same, F.where(res['track-only'][1]),
+           'both contexts leave the same bookkeeping' if same else
+           'the bookkeeping differs: ' + '; '.join(f'{f}: {a[f]} vs {b[f]}' for f in dflt if (a[f].lo, a[f].hi) != (b[f].lo, b[f].hi)))
+    return 3
+
+
 def r07_12(chk, P):
     chk.rule('R07.12', 'a packet advances the position by a quarter of the previous block plus a quarter of its own (Vorbis I: two '
              'consecutive blocks overlap by half of each): in vorbisfile.c every accumulation (X += E, X = X + E) whose increment '
@@ -425,6 +478,8 @@ def run(chk, P):
     r07_8(chk, P)
     chk.floor('R07.8', 2)
     r07_12(chk, P)
+    r07_13(chk, P)
+    chk.floor('R07.13', 3)
     chk.floor('R07.12', 2)
     chk.rule('R07.9', 'the data offsets the seeks start from are the links\' first audio pages: every value stored into vf->dataoffsets[] '
              'that derives from a read of the stream position vf->offset sees the header fetch of that link as the last writer of '
